@@ -583,8 +583,9 @@ def run(ck, prog, ctx):
         for bi, t in sorted(lb_.calls(), key=lambda q: len([1 for q2 in lb_.calls() if lb_.dominates(q2[0], q[0])])):
             r = t.callee.res or ""
             if r in prog.bodies and not t.callee.trait:
-                nm = re.sub(r"::<[^>]*>", "", r).rsplit("::", 1)[-1]
-                seq.append("<gene parser>" if r.startswith(G) else nm)
+                r0 = prog.bodies[r].spec_of or r  # (a call-site clone of a helper that takes the gene parser as a function pointer is that helper)
+                nm = re.sub(r"::<[^>]*>", "", r0).rsplit("::", 1)[-1]
+                seq.append("<gene parser>" if r0.startswith(G) else nm)
         stages[fn_] = (lb_, tuple(seq))
         fin = [x for x in seq if x.startswith("build")]
         if not fin:
